@@ -452,6 +452,8 @@ func writePairwiseAlignment(p string, w int, cPair chan alignPair, cWriteDone ch
 // ToPairAlign converts a SAM file containing pairwise alignments between assembled genomes into pairwise fasta-format alignments,
 // optionally including the reference sequence and insertions relative to it, optionally trimmed to coordinates in (degapped-)reference space
 func ToPairAlign(samIn, ref io.Reader, outpath string, wrap int, trimStart int, trimEnd int, omitRef bool, omitIns bool, threads int) error {
+	vhook.Begin("sam.ToPairAlign", threads)
+	defer vhook.End("sam.ToPairAlign")
 
 	// NB probably uncomment the below and use it for checks (e.g. for
 	// reference length)
